@@ -15,6 +15,7 @@ WITNESSES = ['C11ArcGetMutNeedsMut']
 def run(ctx):
     from . import guardvocab
     guardvocab.G0(ctx, effects={'ref-dec', 'ref-inc'})
+    guardvocab.G1(ctx, effects={'ref-dec', 'ref-inc'})
     g_dpor.T1(ctx, mods=["rt::arc"])
     g_dpor.T2(ctx, mods=["rt::arc"])
     g_dpor.T3(ctx, mods=["rt::arc"])
